@@ -61,6 +61,7 @@ CORPORA = {
                  quick=dict(count=1500), thorough=dict(count=40000), profiles=DEV_REL, place="end"),
     "hperm": dict(kind="mutate", gen="perm_cases", gen_all_files=True, base=["hfields", "hgetters", "hdst", "hwalk"],
                   quick=dict(count=1000), thorough=dict(count=20000), profiles=DEV_REL, place="end"),
+    "xcast": dict(model="MC_XCast", quick={}, thorough={}, profiles=DEV_REL, place="both"),
     "load": dict(model="MC_Load", quick=dict(MaxT=72), thorough=dict(MaxT=160), profiles=DEV_REL, place="both"),
     "walk": dict(model="MC_Walk", quick=dict(MaxT=32), thorough=dict(MaxT=40), profiles=DEV_REL, place="both"),
 }
@@ -86,7 +87,7 @@ CHECKS = {
                 rule="TLC-judged: every interval end point +-2 of the three classification tables and structured values, each with 3 partner "
                      "values for the equality relations; all 256 framebuffer type bytes; native sweep of all 2^32 u32 values "
                      "thorough tier) against the interval tables exported from the specification"),
-    "C15": dict(thorough_extra=["mut"], corpora=["custom", "dst", "sized", "hdst", "fields", "getters"],
+    "C15": dict(thorough_extra=["mut"], corpora=["custom", "xcast", "dst", "sized", "hdst", "fields", "getters"],
                 rule="user-defined family (sized tags with 0..6 extra words; DST tails with element sizes 1,2,3,4,8,24 x fixed parts 8..24) "
                      "x all tag sizes 8..96 through the public get_tag; every built-in kind of both crates viewed at every declared size (variable-length kinds 0..base+3*elem+DstExtra, "
                      "header-tag kinds 0..40) and at its conformant size; non-trivial = casts that return a view"),
@@ -127,7 +128,7 @@ CHECKS = {
     "C19": dict(thorough_extra=["mut"], corpora=["elf"],
                 rule="all (count 0..MaxN, entry size in ElfSizes, string-table index 0..n+1, section bytes in {0, n*es-1, n*es, n*es+8}, "
                      "raw-type rotation); names resolved through a string table mapped at a fixed external address"),
-    "C01": dict(corpora=["fields", "getters", "dst", "sized", "custom", "fb", "rsdp", "adv", "efi", "elf", "walk", "load", "mut", "perm"],
+    "C01": dict(corpora=["fields", "getters", "dst", "sized", "custom", "fb", "rsdp", "adv", "efi", "elf", "walk", "load", "mut", "perm", "xcast"],
                 rule="union of the boot-information corpora (every kind, every declared size, all framebuffer type bytes, "
                      "all walks); every call of every session is checked for crash/hang and for extents inside the owning tag"),
     "C04": dict(thorough_extra=["mut", "session"], corpora=["fields", "getters", "fb", "rsdp"],
